@@ -58,7 +58,7 @@ func (s *Server) Listen(errorCallback func(error),
 			return
 		default:
 		}
-		buf := make([]byte, 200)
+		buf := make([]byte, maxADUSize)
 		cnt, err := s.transport.Read(buf)
 		if err != nil {
 			if err != io.EOF && s.transport.Type() == TransportTypeRTU {
